@@ -285,10 +285,10 @@ fn view_iter_script(src: &str, d: &[u8], steps: &[crate::iterscript::Step], scri
         }
     }
     let (obs, diff) = if src == "iter" {
-        let real = its::forward(msg.iter(), |p: (Tag, &[u8])| pair_str(p.0, p.1));
+        let real = its::forward(msg.iter(), |p: (Tag, &[u8])| pair_str(p.0, p.1), its::cap_for(n));
         its::run_both("C12", "MessageView::iter() against get(i)", steps, script, real, items, false)
     } else {
-        let real = its::double_ended(msg.tags().iter(), |t: &Tag| t.value().to_string());
+        let real = its::double_ended(msg.tags().iter(), |t: &Tag| t.value().to_string(), its::cap_for(n));
         its::run_both("C12", "MessageView::tags().iter() against get(i)", steps, script, real, items, true)
     };
     so.obs.push(obs);
